@@ -202,10 +202,19 @@ def check(case):
             if kind == 'kw':
                 return getattr(d, method)(**{k: _mk_value(c) for k, c in cond[1].items()})
             if kind == 'dict':
-                return getattr(d, method)({k: _mk_value(c) for k, c in cond[1].items()})
+                fd = {k: _mk_value(c) for k, c in cond[1].items()}
+                keys0 = list(fd)
+                r_ = getattr(d, method)(fd)
+                if list(fd) != keys0:
+                    out.viol('filter-dict-changed', '%s(%s): the filter dict handed in now has the keys %s' % (method, cond, list(fd)), cond=kind)
+                return r_
             if kind == 'dict+kw':
-                return getattr(d, method)({k: _mk_value(c) for k, c in cond[1].items()},
-                                          **{k: _mk_value(c) for k, c in cond[2].items()})
+                fd = {k: _mk_value(c) for k, c in cond[1].items()}
+                keys0 = list(fd)
+                r_ = getattr(d, method)(fd, **{k: _mk_value(c) for k, c in cond[2].items()})
+                if list(fd) != keys0:
+                    out.viol('filter-dict-changed', '%s(%s): the filter dict handed in now has the keys %s (the keyword filters were merged into it)' % (method, cond, list(fd)), cond=kind)
+                return r_
             return getattr(d, method)(funcs[cond[1]][0])
 
         d = build()
